@@ -27,8 +27,25 @@ func runFree(sc *Scenario, procs int) (msg string, timedOut bool) {
 	if sc.N > 0 {
 		cancelAfter = sc.N // cancel after this many deliveries
 	}
+	var wg sync.WaitGroup
+	var mu sync.Mutex
+	mu0 := &mu
 	go func() {
-		for _, x := range input[e.next[0]:] {
+		rest := input[e.next[0]:]
+		for k, x := range rest {
+			if sc.CancelAtEnd && k == len(rest)-1 {
+				// let the workers park in their receive, then: cancel in a fresh goroutine, last element, close - back to back.
+				// On one P the goroutine readied last runs first: a worker sees the end of the input while the context is
+				// alive, then the cancel lands, then the worker holding the last element resumes.
+				for i := 0; i < 20; i++ {
+					runtime.Gosched()
+				}
+				time.Sleep(200 * time.Microsecond)
+				mu0.Lock()
+				e.cancelled = true
+				mu0.Unlock()
+				go cancel()
+			}
 			select {
 			case e.in[0] <- x:
 				e.mu.Lock()
@@ -43,8 +60,6 @@ func runFree(sc *Scenario, procs int) (msg string, timedOut bool) {
 		e.mu.Unlock()
 		close(e.in[0])
 	}()
-	var wg sync.WaitGroup
-	var mu sync.Mutex
 	total := 0
 	for _, p := range e.ports {
 		wg.Add(1)
